@@ -73,6 +73,9 @@ def impl(case):
     stamps = [unhex(x) for x in init["stamps"]] if init.get("stamps") else None
     if init["kind"] == "poses":
         poses = [U(p, (4, 4)) for p in init["poses"]]
+        for k in range(1, len(poses)):     # equal consecutive poses share ONE matrix object, as in `[pose] * k`
+            if (poses[k] == poses[k - 1]).all():
+                poses[k] = poses[k - 1]
         obj = PoseTrajectory3D(poses_se3=poses, timestamps=np.array(stamps)) if stamps else PosePath3D(poses_se3=poses)
     else:
         xs, qs = np.array([U(v, 3) for v in init["pos"]]), np.array([U(q, 4) for q in init["quat"]])
@@ -310,7 +313,7 @@ def rand_pose(rng, scale, offset=0.0):
     return p
 
 
-def make_op(rng, name, n, scale, stamps, nmax=None):
+def make_op(rng, name, n, scale, stamps, nmax=None, stamped=True):
     if name in ("rd_pos", "rd_quat", "rd_poses", "rd_derived", "copy"):
         return {"op": name}
     if name.startswith("transform"):
@@ -328,6 +331,8 @@ def make_op(rng, name, n, scale, stamps, nmax=None):
         return {"op": "scale", "s": hexf(float(rng.choice([0.5, 2.0, 1.0, 1e-2, 30.0])))}
     if name == "reduce":
         m = int(rng.integers(1, n + 1))
+        if not stamped and rng.random() < 0.5:    # (timestamps must stay ascending, so only for paths) index lists may repeat a pose (and need not be sorted): the selected matrix object is then shared
+            return {"op": "reduce", "ids": [int(i) for i in rng.choice(n, size=m + 1, replace=True)]}
         return {"op": "reduce", "ids": sorted(int(i) for i in rng.choice(n, size=m, replace=False))}
     if name == "downsample":
         return {"op": "downsample", "n": int(rng.integers(1, n + 3))}
@@ -355,6 +360,10 @@ def build_case(rng, names, n, from_poses, with_stamps):
     scale = float(10.0 ** rng.integers(-1, 3))
     offset = float(rng.choice([0.0, 0.0, 4.5e5]))
     poses = [rand_pose(rng, scale, offset) for _ in range(n)]
+    if n >= 3 and rng.random() < 0.3:      # a stationary stretch: the same pose repeated
+        a = int(rng.integers(0, n - 1))
+        for k in range(a + 1, min(n, a + 1 + int(rng.integers(1, 4)))):
+            poses[k] = poses[a].copy()
     stamps = list(1.5e9 + np.cumsum(rng.uniform(0.5, 1.5, n))) if with_stamps else None
     if from_poses:
         init = {"kind": "poses", "poses": [H(p) for p in poses]}
@@ -370,7 +379,7 @@ def build_case(rng, names, n, from_poses, with_stamps):
             nm = "reduce"
         if nm in ("align", "align_scale", "align_only_scale") and cur_n < 3:
             nm = "scale"
-        o = make_op(rng, nm, cur_n, scale, cur_stamps or [0.0, 1.0], nmax=n)
+        o = make_op(rng, nm, cur_n, scale, cur_stamps or [0.0, 1.0], nmax=n, stamped=bool(stamps))
         if o["op"] == "align":
             o["ref"] = [H(rand_pose(rng, scale, offset)) for _ in range(cur_n)]
         ops.append(o)
